@@ -4,9 +4,9 @@ from auction_common import impl_exec, impl_exec_multi, nontrivial, classify  # n
 
 SHARDS = {'quick': 1, 'thorough': 16}
 TITLE = 'Auction accepts exactly the calls the Laws of bridge allow'
-LEAN_TARGETS = ['BridgeVerif.Props.C01', 'BridgeVerif.Translated.Auction', 'BridgeVerif.Props.C01t']
-AUDIT_PROPS = ['C01', 'Translated.Auction', 'C01t']
-REQUIRED = ['C01t.translated_auction_refines_laws', 'C01t.translated_take_bid_is_model', 'Translated.Auction.init_translated', 'Translated.Auction.take_bid_translated', 'Translated.Auction.run_translated', 'Translated.Auction.contract_translated',
+LEAN_TARGETS = ['BridgeVerif.Props.C01', 'BridgeVerif.Translated.Auction', 'BridgeVerif.Props.C01t', 'BridgeVerif.Lemmas.MiniPyFuel']
+AUDIT_PROPS = ['C01', 'Translated.Auction', 'C01t', 'Lemmas.MiniPyFuel']
+REQUIRED = ['Lemmas.MiniPyFuel.mkRec_mono', 'Lemmas.MiniPyFuel.runMethod_independent_of_fuel', 'C01t.translated_auction_refines_laws', 'C01t.translated_take_bid_is_model', 'Translated.Auction.init_translated', 'Translated.Auction.take_bid_translated', 'Translated.Auction.run_translated', 'Translated.Auction.contract_translated',
             'auction_refines_laws', 'take_bid_accepts_iff_legal', 'illegal_reported_and_state_unchanged',
             'avail_vector_is_legal_set']
 RULE = ('legal-biased random auctions played to completion through BiddingPhase.take_bid with calls the Laws forbid '
